@@ -247,6 +247,13 @@ def run(case):
         compare('operator-form', _summ(_call_operator_conelp(inst)), base)
         for v in O.viol[nv:]:
             v['sub'] = {'instance': {k: inst[k] for k in ('c', 'G', 'h', 'dims', 'A', 'b')}, 'cfg': 'operators + callable kkt'}
+        if n >= 2:
+            # the same in operator form over a user-defined vector type for x (xnewcopy, xdot, xaxpy, xscal)
+            from checks import C10
+            nv = len(O.viol)
+            compare('operator-form,user-x-type', _summ(C10._call_customx(inst, 'conelp', C10.Fault(), {})), base)
+            for v in O.viol[nv:]:
+                v['sub'] = {'instance': {k: inst[k] for k in ('c', 'G', 'h', 'dims', 'A', 'b')}, 'cfg': 'operators over XVec + callable kkt'}
     elif case['fam'] == 'coneqp':
         inst = qpsolve.planted_qp(case['dims'], case['n'], case['p'], case['variant'])
         if inst is None or lpexact.rank(inst['P']) != case['n']:
@@ -275,6 +282,12 @@ def run(case):
         if only_l:
             cfgs.append(('qp', {'entry': 'qp', 'storage': 'dense', 'kkt': None}))
             cfgs.append(('qp,sparse,ldl', {'entry': 'qp', 'storage': 'sparse', 'kkt': 'ldl', 'init': ['x', 's', 'y', 'z']}))
+        if case['n'] >= 2:
+            from checks import C10
+            nv = len(O.viol)
+            compare('operator-form,user-x-type', _summ(C10._call_customx(inst, 'coneqp', C10.Fault(), {})), base, key_entry='coneqp')
+            for v in O.viol[nv:]:
+                v['sub'] = {'instance': {k: inst[k] for k in ('P', 'q', 'G', 'h', 'dims', 'A', 'b')}, 'cfg': 'operators over XVec + callable kkt'}
         for name, cfg in cfgs:
             res, _ = qpsolve.call(inst, cfg)
             nv = len(O.viol)
